@@ -16,7 +16,7 @@ o = SquareLoss(th, m, x0, 0.0, t, sol[:, [2, 1]], ['R', 'I'])                   
 show("(i)   ['R','I'] gradient", lambda: o.sensitivity(th)); show("      d cost / d theta ", lambda: fd(o.cost, np.array(th)))
 m.parameters = th; o = SquareLoss([0.25, 0.5], m, x0, 0.0, t, sol[:, 1], 'I', target_param=['gamma', 'beta'])   # (ii) order of target_param
 show("(ii)  target_param=[gamma,beta] gradient", lambda: o.sensitivity([0.25, 0.5])); show("      d cost / d (gamma,beta)         ", lambda: fd(o.cost, np.array([0.25, 0.5])))
-m.parameters = th; o = GammaLoss(th, m, x0, 0.0, t, sol[:, 1], 'I')                # (iii) Gamma, one observed state
+m.parameters = th; o = GammaLoss(th, m, x0, 0.0, t, sol[:, 1], 'I')                # (iii) Gamma, one observed state (fixed in /repo by 9a6447c)
 show("(iii) GammaLoss single state gradient", lambda: o.sensitivity(th))
 m.parameters = th; o = SquareLoss(th, m, x0, 0.0, t, sol[:, [1, 2]], ['I', 'R'], target_state=['R'])            # (iv) target_state given
 show("(iv)  target_state=['R'] sensitivityIV", lambda: o.sensitivityIV(th + [0.5]))
